@@ -981,6 +981,8 @@ fn mode_programs(args: &Args, mode: &str) {
         let mut rng = master.fork();
         let prog = if mode == "park" {
             gen_park_prog(&mut rng)
+        } else if mode == "chase" && rng.chance(1, 5) {
+            gen_storm_prog(&mut rng, 10)
         } else if mode == "chase" {
             gen_chase_prog(&mut rng, 10)
         } else if mode == "stress" && rng.chance(1, big_every) {
@@ -1104,6 +1106,31 @@ fn gen_chase_prog(rng: &mut Rng, scale: u64) -> Prog {
     if rng.chance(1, 2) {
         // a thread that keeps running the maintenance explicitly, beside the nested runs
         threads.push((0..rng.range(50, 200) * scale).map(|_| COp::Sync).collect());
+    }
+    Prog { cfg, threads }
+}
+
+/// "Storm": several threads call invalidate_all in tight loops while others insert a key,
+/// invalidate everything and read the key back. Aims at windows inside invalidate_all itself.
+fn gen_storm_prog(rng: &mut Rng, scale: u64) -> Prog {
+    let keys = rng.range(1, 3) as u32;
+    let mut cfg = gen_cfg(rng, keys);
+    cfg.cap = None;
+    cfg.ttl = None;
+    cfg.tti = None;
+    let mut threads = Vec::new();
+    for _ in 0..rng.range(3, 8) {
+        threads.push((0..rng.range(30, 80) * scale).map(|_| COp::InvalidateAll).collect());
+    }
+    for _ in 0..rng.range(2, 4) {
+        let mut ops = Vec::new();
+        for _ in 0..rng.range(20, 60) * scale {
+            let k = rng.below(keys as u64) as u32;
+            ops.push(COp::Insert { k, w: 1 });
+            ops.push(COp::InvalidateAll);
+            ops.push(COp::Get { k });
+        }
+        threads.push(ops);
     }
     Prog { cfg, threads }
 }
